@@ -654,7 +654,9 @@ def check_c06(exe, tier, seed, verdict):
         # every second scenario next to process-wide requirements that every file of the tree FULFILS (owner, group, permission
         # masks, set in varying order): the library's own checks pass, the caller's check is still asked about every file
         req = [["requireperms 444 555"], ["requireowner 0", "requireperms 444 555"], ["requireperms 004 001", "requiregroup 0"], ["requireowner 0"]][(i // 2) % 4] if i % 2 else []
-        sc += req + shape.pre(R) + shape.call(1, R, cb=True) + shape.post() + (["resetsec"] if req else [])
+        # the callback opens a descriptor of its own at every call and keeps it: afterwards all of them are still open, and the
+        # library closed no descriptor that was not open (fdcheck)
+        sc += req + shape.pre(R) + ["cbopenfd 1"] + shape.call(1, R, cb=True) + ["fdcheck", "cbopenfd 0"] + shape.post() + (["resetsec"] if req else [])
         if ent.startswith("readhistcb"):
             sc += ["dump %d" % h for h in range(1, 9)] + ["free %d" % h for h in range(1, 9)]
         else:
@@ -681,6 +683,7 @@ def check_c06(exe, tier, seed, verdict):
             rp = {norm(k.replace(ROOT + "/c%d/" % (i % 16), "")): v for k, v in paths.items()}
         rd = next(e for e in out["ev"] if e["op"].startswith("read"))
         dumps = [e for e in out["ev"] if e["op"] == "dump"]
+        fds_ok = all(e["bad"] == 0 for e in out["ev"] if e["op"] == "fdcheck")
         # trace: Begin, Callback*, End
         events.append({"e": "begin", "main": t["main"], "drop": t["drop"], "shp": t["shp"], "nlay": len(t["main"]),
                        "faults": [{"f": list(f), "x": ["reject"]} for f in sorted(rej)], "attrs": [],
@@ -704,11 +707,11 @@ def check_c06(exe, tier, seed, verdict):
                 d = dumps[h]
                 hist.append({"f": list(absrp.get(norm(d["st"]["path"]), (0, 0))) if d["st"] else [0, 0],
                              "obs": {"groups": sections_of(d), "ents": listing_of_dump(d) or []}})
-            events.append({"e": "end", "rc": rd["rc"], "has_obj": bool(rd["arr"]), "kind": "hist", "hist": hist, "ents": [], "heap_ok": True, "cbused": True})
+            events.append({"e": "end", "rc": rd["rc"], "has_obj": bool(rd["arr"]), "kind": "hist", "hist": hist, "ents": [], "heap_ok": True, "fds_ok": fds_ok, "cbused": True})
         else:
             got = listing_of_dump(dumps[0]) if dumps and dumps[0]["st"] else None
             events.append({"e": "end", "rc": rd["rc"], "has_obj": bool(rd.get("obj")) and not (rd["rc"] != "ECONF_SUCCESS" and rd.get("same")),
-                           "kind": "visible" if f4_class(x) else "cfg", "hist": [], "heap_ok": True, "cbused": True,
+                           "kind": "visible" if f4_class(x) else "cfg", "hist": [], "heap_ok": True, "fds_ok": fds_ok, "cbused": True,
                            "ents": sorted_ents(got or [])})
         n_scen += 1
         if len(K) >= 3 and rej and K.index(sorted(rej, key=K.index)[0]) > 0:
@@ -1601,7 +1604,7 @@ def scenario_script(i, x, ent, rej=(), attrs=None, flags=None, malformed=(), res
             fl[pos:pos] = ["followsymlinks 0", "followsymlinks 1"] if r_.random() < 0.5 else ["followsymlinks 1"]
 
     def one_read(h):
-        c = ["cbreset", "cbrejectk %d" % mask] + shape.call(h, R, cb=use_cb)
+        c = ["cbreset", "cbrejectk %d" % mask] + (["cbopenfd 1"] if use_cb else []) + shape.call(h, R, cb=use_cb) + (["fdcheck", "cbopenfd 0"] if use_cb else [])
         if ent.startswith("readhist"):
             c += ["dump %d" % k for k in range(h, h + 8)] + ["free %d" % k for k in range(h, h + 8)]
         else:
@@ -1631,6 +1634,8 @@ def scenario_events(x, ent, out, paths, K, rej=(), attrs=None, flags=None, malfo
     t = {"main": with_dangling(x, dangling), "drop": x["drop"], "shp": x["shp"]}
     ev = out["ev"]
     heaps = [e["bytes"] for e in ev if e["op"] == "heap"]
+    # descriptors the caller's callback opened during a read are the caller's: still open (and still the same file) afterwards
+    fds_ok = all(e["bad"] == 0 for e in ev if e["op"] == "fdcheck")
     heap_ok = True
     if heap:
         heap_ok = len(heaps) == 2 and heaps[0] == heaps[1]
@@ -1677,12 +1682,12 @@ def scenario_events(x, ent, out, paths, K, rej=(), attrs=None, flags=None, malfo
             for d in nxt[:rd["n"]]:
                 st = d["st"]
                 hist.append({"f": list(hp.get(norm(st["path"]), (0, 0))) if st else [0, 0], "obs": {"groups": sections_of(d), "ents": listing_of_dump(d) or []}})
-            events.append({"e": "end", "rc": rd["rc"], "has_obj": bool(rd["arr"]), "kind": "hist", "hist": hist, "ents": [], "heap_ok": heap_ok, "cbused": use_cb})
+            events.append({"e": "end", "rc": rd["rc"], "has_obj": bool(rd["arr"]), "kind": "hist", "hist": hist, "ents": [], "heap_ok": heap_ok, "fds_ok": fds_ok, "cbused": use_cb})
         else:
             got = listing_of_dump(nxt[0]) if nxt and nxt[0]["st"] else None
             events.append({"e": "end", "rc": rd["rc"], "has_obj": bool(rd.get("obj")) and not (rd["rc"] != "ECONF_SUCCESS" and rd.get("same")),
                            "kind": "visible" if (f4_tree(t["main"], t["drop"], pd_rows(x, ent)) if any(f[1] == 0 for f in dangling) else f4_class(x)) else "cfg",
-                           "hist": [], "ents": sorted_ents(got or []), "heap_ok": heap_ok, "cbused": use_cb})
+                           "hist": [], "ents": sorted_ents(got or []), "heap_ok": heap_ok, "fds_ok": fds_ok, "cbused": use_cb})
     return events
 
 
